@@ -118,6 +118,8 @@ class C14(Harness):
             ops += [['cset', 'A', 'c', 'n3'], ['cset', 'B', 'c', 'n3'], ['cset', 'A', 'r', 9], ['cset', 'B', 'r', 9], ['cset', 'A', 'cn', 'n2'], ['cset', 'B', 'cn', 'n2']]
         if model['edit']:
             ops += [['close'], ['raise']]
+        if len(model['edit']) > 1:
+            ops.append(['closeall'])          # leave every open block, innermost first
         return ops
 
     def execute(self, cfg, history):
@@ -190,6 +192,9 @@ class C14(Harness):
                 elif k == 'raise':
                     e = Boom('body')
                     w['stack'].pop().__exit__(Boom, e, None)
+                elif k == 'closeall':
+                    while w['stack']:
+                        w['stack'].pop().__exit__(None, None, None)
                 elif k == 'src':
                     old = model['src'][op[1]]
                     model['src'][op[1]] = op[2]
@@ -244,6 +249,10 @@ class C14(Harness):
                         vs.append(V('legitimate-set-rejected', '%s: %r raised %r' % (ctx, op, exc), op=k, cls=op[1]))
             elif k == 'open_edit':
                 model['edit'].append(op[1])
+            elif k == 'closeall':
+                del model['edit'][:]
+                if exc is not None and last:
+                    vs.append(V('edit-exit-raises', '%s: leaving edit_constant raised %r' % (ctx, exc), op=k))
             elif k in ('close', 'raise'):
                 model['edit'].pop()
                 if exc is not None and last:
